@@ -1,317 +1,10 @@
-(* C10 -- signed cookie sessions (src/pyramid/session.py: manage_accessed, manage_changed,
-   BaseCookieSessionFactory/CookieSession, SignedCookieSessionFactory; WebOb SignedSerializer and
-   JSONSerializer enter through the [oracles] record).  Executable definitions only. *)
+(* C10 -- signed cookie sessions: request chains over the reference model (Model/C10_base.v) and over the
+   program regenerated from src/pyramid/session.py (Gen/Prog_C10.v), declarative specification, concrete
+   JSON / base64, wire glue.  Executable definitions only. *)
 From Coq Require Import List NArith ZArith Bool.
 Import ListNotations.
 Require Import Verif.Lib.Wire Verif.Gen.Facts_C10.
-
-(* ------------------------------------------------------------------ JSON data model *)
-(* Clock: time.time() is a float on a grid of 1/tick seconds (tick = 4: 0.25 s, exactly representable,
-   so every float subtraction/comparison/int() the code performs is exact).  All clock values of the
-   model (request time, operation time, float time stamps) are counted in ticks; int(time.time()) is
-   truncation to whole seconds.  JFlt q is the float q/tick (time stamps only). *)
-Definition tick : Z := 4%Z.
-Inductive jv :=
-| JNull | JBool (b : bool) | JInt (z : Z) | JFlt (z : Z) | JStr (s : text)
-| JList (l : list jv) | JObj (m : list (text * jv)).
-Definition dict := list (text * jv).      (* Python dict: insertion ordered, string keys *)
-
-Fixpoint d_get (k : text) (d : dict) : option jv :=
-  match d with [] => None | (k', v) :: r => if text_eqb k k' then Some v else d_get k r end.
-Fixpoint d_set (k : text) (v : jv) (d : dict) : dict :=
-  match d with
-  | [] => [(k, v)]
-  | (k', v') :: r => if text_eqb k k' then (k', v) :: r else (k', v') :: d_set k v r
-  end.
-Fixpoint d_del (k : text) (d : dict) : dict :=
-  match d with [] => [] | (k', v') :: r => if text_eqb k k' then r else (k', v') :: d_del k r end.
-Definition d_update (m d : dict) : dict := fold_left (fun acc kv => d_set (fst kv) (snd kv) acc) m d.
-
-Definition num_of (v : jv) : option Z :=
-  match v with JBool b => Some (if b then 1 else 0)%Z | JInt z => Some z | JFlt z => Some z | _ => None end.
-
-(* Python == on JSON values (True == 1 == 1.0; dicts compare without order) *)
-Fixpoint py_eq (a b : jv) {struct a} : bool :=
-  match num_of a, num_of b with
-  | Some x, Some y => Z.eqb x y
-  | Some _, None => false
-  | None, Some _ => false
-  | None, None =>
-      match a, b with
-      | JNull, JNull => true
-      | JStr s, JStr t => text_eqb s t
-      | JList l, JList m =>
-          (fix go (l m : list jv) : bool :=
-             match l, m with
-             | [], [] => true
-             | x :: l', y :: m' => py_eq x y && go l' m'
-             | _, _ => false
-             end) l m
-      | JObj p, JObj q =>
-          Nat.eqb (length p) (length q) &&
-          (fix go (p : list (text * jv)) : bool :=
-             match p with
-             | [] => true
-             | (k, v) :: p' => match d_get k q with Some w => py_eq v w | None => false end && go p'
-             end) p
-      | _, _ => false
-      end
-  end.
-
-(* ------------------------------------------------------------------ comparison operators (regenerated) *)
-Definition cmp_eval (c : N) (a b : Z) : bool :=
-  match c with
-  | 0%N => Z.gtb a b | 1%N => Z.geb a b | 2%N => Z.ltb a b | 3%N => Z.leb a b
-  | 4%N => Z.eqb a b | _ => negb (Z.eqb a b)
-  end.
-
-(* ------------------------------------------------------------------ third-party functions *)
-(* WebOb SignedSerializer = b64 (mac key (ser p) ++ ser p); JSONSerializer = ser/deser.
-   [ds] is the digest size.  The theorems quantify over every such record (plus the stated
-   round-trip premises); the runner instantiates it (bottom of this file). *)
-Record oracles := {
-  mac : text -> text -> text;
-  ser : jv -> text;
-  deser : text -> option jv;
-  b64 : text -> text;
-  unb64 : text -> option text;
-  ds : nat }.
-
-Record opts := { key : text; timeout : option Z; reissue : option Z; soe : bool }.
-
-(* ------------------------------------------------------------------ session object *)
-Inductive tnum := TI (z : Z) | TF (q : Z).     (* int seconds / float (in ticks) time stamp *)
-Definition tval (t : tnum) : Z := match t with TI z => (z * tick)%Z | TF q => q end.     (* in ticks *)
-Definition int_time (now : Z) : Z := Z.quot now tick.     (* int(time.time()) *)
-Definition tjv (t : tnum) : jv := match t with TI z => JInt z | TF z => JFlt z end.
-
-Record sess := { st : dict; created : tnum; accessed : tnum; renewed : tnum; isnew : bool; dirty : bool }.
-
-Definition with_st (s : sess) (d : dict) : sess :=
-  {| st := d; created := created s; accessed := accessed s; renewed := renewed s; isnew := isnew s; dirty := dirty s |}.
-Definition with_accessed (s : sess) (t : tnum) : sess :=
-  {| st := st s; created := created s; accessed := t; renewed := renewed s; isnew := isnew s; dirty := dirty s |}.
-(* CookieSession.changed: the callback is registered once; afterwards _dirty stays True *)
-Definition mark (s : sess) : sess :=
-  {| st := st s; created := created s; accessed := accessed s; renewed := renewed s; isnew := isnew s; dirty := true |}.
-
-(* SignedSerializer.loads; None = ValueError *)
-Definition loads (O : oracles) (k c : text) : option jv :=
-  match unb64 O c with
-  | None => None
-  | Some f =>
-      let cs := skipn (ds O) f in
-      if text_eqb (mac O k cs) (firstn (ds O) f) then deser O cs else None
-  end.
-
-(* float(x) inside __init__ *)
-Inductive fres := FOk (z : Z) | FErr | FUnm.
-Definition is_digit (c : N) : bool := (48 <=? c)%N && (c <=? 57)%N.
-Definition float_ok_char (c : N) : bool :=     (* ASCII characters that may occur in a float literal *)
-  is_digit c || memN c [43; 45; 46; 95; 32; 9; 10; 11; 12; 13;
-                        105; 110; 102; 97; 116; 121; 101; 73; 78; 70; 65; 84; 89; 69]%N.
-Definition digits_val (s : text) : Z := fold_left (fun a c => (a * 10 + Z.of_N (c - 48))%Z) s 0%Z.
-Definition float_of (v : jv) : fres :=
-  match v with
-  | JInt z => FOk (z * tick)%Z | JFlt q => FOk q | JBool b => FOk (if b then tick else 0)%Z
-  | JStr s =>
-      if negb (Nat.eqb (length s) 0) && forallb is_digit s && Nat.leb (length s) 15 then FOk (digits_val s * tick)%Z
-      else if existsb (fun c => (c <? 128)%N && negb (float_ok_char c)) s then FErr
-      else match s with [] => FErr | _ => FUnm end
-  | _ => FErr
-  end.
-
-(* rval, cval, sval = value *)
-Definition unpack3 (v : jv) : option (jv * jv * jv) :=
-  match v with
-  | JList [a; b; c] => Some (a, b, c)
-  | JObj [(a, _); (b, _); (c, _)] => Some (JStr a, JStr b, JStr c)
-  | JStr [a; b; c] => Some (JStr [a], JStr [b], JStr [c])
-  | _ => None
-  end.
-
-Inductive ires := IOk (s : sess) | IRaise | IUnm.
-
-(* dict.__init__(self, state) *)
-Definition state_dict (v : jv) : option (option dict) :=      (* Some None = raises; None = not modelled *)
-  match v with
-  | JObj m => Some (Some m)
-  | JList [] => Some (Some [])
-  | JStr [] => Some (Some [])
-  | JList _ => None
-  | _ => Some None
-  end.
-
-Definition empty_state : jv := JObj [].
-
-(* CookieSession.__init__ *)
-Definition init (O : oracles) (o : opts) (cookie : option text) (now : Z) : ires :=
-  let value := match cookie with
-               | None => None
-               | Some c => match loads O (key o) c with Some JNull => None | x => x end
-               end in
-  let fresh := Some (TF now, TF now, empty_state, true) in
-  let r :=
-    match value with
-    | None => fresh
-    | Some v =>
-        match unpack3 v with
-        | None => fresh
-        | Some (rv, cv, sv) =>
-            match float_of rv with
-            | FErr => fresh
-            | FUnm => None
-            | FOk r =>
-                match float_of cv with
-                | FErr => Some (TF r, TF now, empty_state, true)
-                | FUnm => None
-                | FOk c => Some (TF r, TF c, sv, false)
-                end
-            end
-        end
-    end in
-  match r with
-  | None => IUnm
-  | Some (rn, cr, state, nw) =>
-      let state := match timeout o with
-                   | Some t => if cmp_eval timeout_cmp (now - tval rn) (t * tick) then empty_state else state
-                   | None => state
-                   end in
-      match state_dict state with
-      | None => IUnm
-      | Some None => IRaise
-      | Some (Some d) => IOk {| st := d; created := cr; accessed := rn; renewed := rn; isnew := nw; dirty := false |}
-      end
-  end.
-
-(* ------------------------------------------------------------------ operations *)
-Inductive op :=
-| OGet (k : text) (d : jv) | OGetItem (k : text) | OItems | OValues | OKeys | OContains (k : text) | OLen | OIter
-| OClear | OUpdate (m : dict) | OSetDefault (k : text) (d : jv) | OPop (k : text) (d : option jv) | OPopItem
-| OSetItem (k : text) (v : jv) | ODelItem (k : text)
-| OFlash (msg : jv) (q : text) (dup : bool) | OPopFlash (q : text) | OPeekFlash (q : text)
-| ONewCsrf (tok : text) | OGetCsrf (tok : text) | OChanged | OInvalidate
-| OIor (m : dict).     (* session |= m : dict.__ior__, Python >= 3.9 *)
-
-Inductive meth :=
-| MGet | MGetItem | MItems | MValues | MKeys | MContains | MLen | MIter
-| MClear | MUpdate | MSetDefault | MPop | MPopItem | MSetItem | MDelItem
-| MFlash | MPopFlash | MPeekFlash | MNewCsrf | MGetCsrf | MChanged | MInvalidate | MIor.
-
-Definition all_meths : list meth :=
-  [MGet; MGetItem; MItems; MValues; MKeys; MContains; MLen; MIter;
-   MClear; MUpdate; MSetDefault; MPop; MPopItem; MSetItem; MDelItem;
-   MFlash; MPopFlash; MPeekFlash; MNewCsrf; MGetCsrf; MChanged; MInvalidate; MIor].
-
-Definition meth_name (m : meth) : text :=
-  match m with
-  | MGet => nm_get | MGetItem => nm_getitem | MItems => nm_items | MValues => nm_values | MKeys => nm_keys
-  | MContains => nm_contains | MLen => nm_len | MIter => nm_iter
-  | MClear => nm_clear | MUpdate => nm_update | MSetDefault => nm_setdefault | MPop => nm_pop
-  | MPopItem => nm_popitem | MSetItem => nm_setitem | MDelItem => nm_delitem
-  | MFlash => nm_flash | MPopFlash => nm_pop_flash | MPeekFlash => nm_peek_flash
-  | MNewCsrf => nm_new_csrf_token | MGetCsrf => nm_get_csrf_token | MChanged => nm_changed
-  | MInvalidate => nm_invalidate
-  | MIor => nm_ior
-  end.
-
-Fixpoint lookup_tab {A} (k : text) (l : list (text * A)) : option A :=
-  match l with [] => None | (k', a) :: r => if text_eqb k k' then Some a else lookup_tab k r end.
-
-(* wrapper kind of a method as the class body says NOW (0 bare, 1 manage_accessed, 2 manage_changed);
-   a name the class does not bind is inherited from dict, i.e. bare *)
-Definition wrapper_of (m : meth) : N :=
-  match lookup_tab (meth_name m) wrapper_table with Some (k, _) => k | None => 0%N end.
-
-(* manage_accessed / manage_changed around one call made at clock [now] *)
-Definition apply_wrap (o : opts) (now : Z) (s : sess) (kind : N) : sess :=
-  match kind with
-  | 1%N =>
-      let s1 := with_accessed s (TI (int_time now)) in
-      match reissue o with
-      | Some r => if cmp_eval reissue_cmp (int_time now * tick - tval (renewed s)) (r * tick) then mark s1 else s1
-      | None => s1
-      end
-  | 2%N => mark (with_accessed s (TI (int_time now)))
-  | _ => s
-  end.
-
-Inductive res := RV (v : jv) | RErr (e : N) | RUnm.    (* 1 KeyError, 2 AttributeError *)
-
-Definition flash_key (q : text) : text := flash_prefix ++ q.
-Definition pair_jv (kv : text * jv) : jv := JList [JStr (fst kv); snd kv].
-Definition keys_jv (d : dict) : jv := JList (map (fun kv => JStr (fst kv)) d).
-Definition token_absent (d : dict) : bool :=
-  match d_get csrf_key d with None => true | Some JNull => true | Some _ => false end.
-
-(* the dict-level effect of each operation (the wrapped dict method, or the body of the
-   flash / csrf method with its inner calls resolved) *)
-Definition raw (p : op) (d : dict) : dict * res :=
-  match p with
-  | OGet k dflt => (d, RV (match d_get k d with Some v => v | None => dflt end))
-  | OGetItem k => (d, match d_get k d with Some v => RV v | None => RErr 1 end)
-  | OItems => (d, RV (JList (map pair_jv d)))
-  | OValues => (d, RV (JList (map snd d)))
-  | OKeys => (d, RV (keys_jv d))
-  | OContains k => (d, RV (JBool (match d_get k d with Some _ => true | None => false end)))
-  | OLen => (d, RV (JInt (Z.of_nat (length d))))
-  | OIter => (d, RV (keys_jv d))
-  | OClear => ([], RV JNull)
-  | OUpdate m => (d_update m d, RV JNull)
-  | OSetDefault k dflt => match d_get k d with Some v => (d, RV v) | None => (d ++ [(k, dflt)], RV dflt) end
-  | OPop k dflt =>
-      match d_get k d with
-      | Some v => (d_del k d, RV v)
-      | None => (d, match dflt with Some v => RV v | None => RErr 1 end)
-      end
-  | OPopItem =>
-      match rev d with
-      | [] => (d, RErr 1)
-      | kv :: r => (rev r, RV (pair_jv kv))
-      end
-  | OSetItem k v => (d_set k v d, RV JNull)
-  | ODelItem k => match d_get k d with Some _ => (d_del k d, RV JNull) | None => (d, RErr 1) end
-  | OFlash msg q dup =>
-      match d_get (flash_key q) d with
-      | None => (d ++ [(flash_key q, JList [msg])], RV JNull)
-      | Some (JList l) =>
-          if dup || negb (existsb (fun x => py_eq x msg) l)
-          then (d_set (flash_key q) (JList (l ++ [msg])) d, RV JNull)
-          else (d, RV JNull)
-      | Some _ => (d, if dup then RErr 2 else RUnm)
-      end
-  | OPopFlash q =>
-      match d_get (flash_key q) d with
-      | Some v => (d_del (flash_key q) d, RV v)
-      | None => (d, RV (JList []))
-      end
-  | OPeekFlash q => (d, RV (match d_get (flash_key q) d with Some v => v | None => JList [] end))
-  | ONewCsrf tok => (d_set csrf_key (JStr tok) d, RV (JStr tok))
-  | OGetCsrf tok =>
-      if token_absent d then (d_set csrf_key (JStr tok) d, RV (JStr tok))
-      else (d, RV (match d_get csrf_key d with Some v => v | None => JNull end))
-  | OChanged => (d, RV JNull)
-  | OInvalidate => ([], RV JNull)
-  | OIor m => (d_update m d, RV JNull)
-  end.
-
-(* the CookieSession methods entered (through attribute lookup on the session, hence through
-   their wrappers) while the operation runs, in order *)
-Definition calls (p : op) (d : dict) : list meth :=
-  match p with
-  | OGet _ _ => [MGet] | OGetItem _ => [MGetItem] | OItems => [MItems] | OValues => [MValues]
-  | OKeys => [MKeys] | OContains _ => [MContains] | OLen => [MLen] | OIter => [MIter]
-  | OClear => [MClear] | OUpdate _ => [MUpdate] | OSetDefault _ _ => [MSetDefault] | OPop _ _ => [MPop]
-  | OPopItem => [MPopItem] | OSetItem _ _ => [MSetItem] | ODelItem _ => [MDelItem]
-  | OFlash _ _ _ => [MFlash; MSetDefault]
-  | OPopFlash _ => [MPopFlash; MPop]
-  | OPeekFlash _ => [MPeekFlash; MGet]
-  | ONewCsrf _ => [MNewCsrf; MSetItem]
-  | OGetCsrf _ => if token_absent d then [MGetCsrf; MGet; MNewCsrf; MSetItem] else [MGetCsrf; MGet]
-  | OChanged => [MChanged]
-  | OInvalidate => [MInvalidate; MClear]
-  | OIor _ => [MIor]
-  end.
+Require Export Verif.Model.C10_base Verif.Gen.Prog_C10.
 
 Definition step (o : opts) (p : op) (now : Z) (s : sess) : sess * res :=
   let s1 := fold_left (apply_wrap o now) (map wrapper_of (calls p (st s))) s in
@@ -327,7 +20,6 @@ Fixpoint run_ops (o : opts) (l : list (op * Z)) (s : sess) : sess * list res :=
   end.
 
 (* ------------------------------------------------------------------ response callback *)
-Inductive fin := FNone | FCookie (c : text) | FOversize.
 
 Definition payload (s : sess) : jv := JList [tjv (accessed s); tjv (created s); JObj (st s)].
 Definition cookie_of (O : oracles) (o : opts) (s : sess) : text :=
@@ -368,6 +60,55 @@ Fixpoint run_chain (O : oracles) (o : opts) (last : option text) (l : list req) 
   match l with
   | [] => []
   | r :: l' => let ob := run_req O o last r in ob :: run_chain O o (next_last last ob) l'
+  end.
+
+(* ------------------------------------------------------------------ the same chains over the program
+   REGENERATED from src/pyramid/session.py (Gen/Prog_C10.v): this is what the runner executes *)
+Definition meth_of (p : op) : meth :=
+  match p with
+  | OGet _ _ => MGet | OGetItem _ => MGetItem | OItems => MItems | OValues => MValues
+  | OKeys => MKeys | OContains _ => MContains | OLen => MLen | OIter => MIter
+  | OClear => MClear | OUpdate _ => MUpdate | OSetDefault _ _ => MSetDefault | OPop _ _ => MPop
+  | OPopItem => MPopItem | OSetItem _ _ => MSetItem | ODelItem _ => MDelItem
+  | OFlash _ _ _ => MFlash | OPopFlash _ => MPopFlash | OPeekFlash _ => MPeekFlash
+  | ONewCsrf _ => MNewCsrf | OGetCsrf _ => MGetCsrf | OChanged => MChanged | OInvalidate => MInvalidate
+  | OIor _ => MIor
+  end.
+(* the body of the method an operation enters: regenerated for the methods CookieSession defines itself,
+   the dict operation on the session's data for the wrapped dict methods *)
+Definition gbody (o : opts) (now : Z) (p : op) : sess -> sess * res :=
+  match p with
+  | OFlash msg q dup => gen_flash o now msg q dup
+  | OPopFlash q => gen_pop_flash o now q
+  | OPeekFlash q => gen_peek_flash o now q
+  | ONewCsrf tok => gen_new_csrf o now tok
+  | OGetCsrf tok => gen_get_csrf o now tok
+  | OInvalidate => gen_invalidate o now
+  | OChanged => fun s => (gen_changed s, RV JNull)
+  | _ => on_state p
+  end.
+Definition gstep (o : opts) (p : op) (now : Z) (s : sess) : sess * res :=
+  gcall o now (meth_of p) (gbody o now p) s.
+Fixpoint grun_ops (o : opts) (l : list (op * Z)) (s : sess) : sess * list res :=
+  match l with
+  | [] => (s, [])
+  | (p, t) :: r =>
+      let '(s1, x) := gstep o p t s in
+      let '(s2, xs) := grun_ops o r s1 in (s2, x :: xs)
+  end.
+(* the response callback registered by changed(): runs iff the session is dirty *)
+Definition gfinish (O : oracles) (o : opts) (s : sess) (exc : bool) : fin :=
+  if dirty s then gen_set_cookie O o exc s else FNone.
+Definition grun_req (O : oracles) (o : opts) (last : option text) (r : req) : robs :=
+  match gen_init O o (present last (rsrc r)) (rt r) with
+  | IRaise => ObsExc
+  | IUnm => ObsUnm
+  | IOk s0 => let '(s1, rs) := grun_ops o (rops r) s0 in Obs s0 rs s1 (gfinish O o s1 (rexc r))
+  end.
+Fixpoint grun_chain (O : oracles) (o : opts) (last : option text) (l : list req) : list robs :=
+  match l with
+  | [] => []
+  | r :: l' => let ob := grun_req O o last r in ob :: grun_chain O o (next_last last ob) l'
   end.
 
 (* ================================================================== declarative specification *)
@@ -970,7 +711,7 @@ Definition put_sobs (ob : option sobs) : val :=
   end.
 
 (* case = [[ds; macs; unb64s; desers]; opts; requests]
-   answer = [model observations; spec observations] *)
+   answer = [observations of the program regenerated from the source; spec observations] *)
 Definition run_C10 (v : val) : val :=
   ret_or_bad (
     match v with
@@ -981,7 +722,7 @@ Definition run_C10 (v : val) : val :=
         olet o := get_opts o in
         olet rs := get_list_of get_req rs in
         let O := table_oracles (Z.to_nat n) macs unbs dess in
-        Some (VL [VL (map put_robs (run_chain O o None rs));
+        Some (VL [VL (map put_robs (grun_chain O o None rs));
                   VL (map put_sobs (spec_chain O o None true rs))])
     | _ => None
     end).
